@@ -292,77 +292,100 @@ SEARCH_SINKS = ('_find', '_rfind', '_findall', '_find_msb0', '_find_lsb0', '_rfi
                 '_findall_lsb0')
 
 
+def _receiving_param(g, call, arg):
+    """Name of the parameter of g that receives expression ``arg`` in ``call`` (None if it cannot be told)."""
+    ps = g.params()
+    if g.cls and not g.is_staticmethod():
+        ps = ps[1:]
+    for k in call.keywords:
+        if k.value is arg:
+            return k.arg if k.arg in g.params() else None
+    for i, a in enumerate(call.args):
+        if a is arg:
+            # Class.method(self, ...) passes self explicitly
+            off = 1 if (isinstance(call.func, ast.Attribute) and isinstance(call.func.value, ast.Name) and call.func.value.id[:1].isupper() and g.cls) else 0
+            idx = i - off
+            return ps[idx] if 0 <= idx < len(ps) else None
+    return None
+
+
 def rule_E3(ctx):
     """bytealigned=None is resolved through options.bytealigned before it reaches a store-level search."""
     m = ctx.m
     r = RuleResult('E3', 'bytealigned defaults from options.bytealigned in every public search function')
     n = 0
     seen = set()
+    work = []
     for c in FAMILY:
-        for name in sorted(m.public_names(c)) + ['_replace']:
+        for name in sorted(m.public_names(c)):
             for f in m.winner(c, name):
-                if 'bytealigned' not in f.params() or f.key in seen:
-                    continue
-                seen.add(f.key)
-                n += 1
-                fa = ctx.R.analyse(f, c)
-                # sanitised names
-                clean = set()
-                dirty_rebind = False
-                for x in own_walk(f.node):
-                    tgt = val = None
-                    if isinstance(x, ast.Assign) and len(x.targets) == 1 and isinstance(x.targets[0], ast.Name):
-                        tgt, val = x.targets[0].id, x.value
-                    elif isinstance(x, ast.AnnAssign) and isinstance(x.target, ast.Name) and x.value is not None:
-                        tgt, val = x.target.id, x.value
-                    if tgt and isinstance(val, ast.IfExp) and ast.unparse(val.test) in ('bytealigned is None', 'bytealigned is not None'):
-                        opt_side = val.body if ast.unparse(val.test) == 'bytealigned is None' else val.orelse
-                        if 'options.bytealigned' in ast.unparse(opt_side):
-                            clean.add(tgt)
-                    if isinstance(x, ast.If) and ast.unparse(x.test) == 'bytealigned is None':
-                        for s in x.body:
-                            if isinstance(s, ast.Assign) and ast.unparse(s.targets[0]) == 'bytealigned' and 'options.bytealigned' in ast.unparse(s.value):
-                                clean.add('bytealigned@' + str(x.lineno))
-                resolved_in_place = [int(c2.split('@')[1]) for c2 in clean if c2.startswith('bytealigned@')]
-                bad = None
-                for cs in fa.calls:
-                    if not isinstance(cs.node, ast.Call):
+                if 'bytealigned' in f.params():
+                    work.append((f, c, 'bytealigned', name))
+    while work:
+        f, c, P, name = work.pop(0)
+        if (f.key, P) in seen:
+            continue
+        seen.add((f.key, P))
+        n += 1
+        fa = ctx.R.analyse(f, c)
+        # sanitised names
+        clean = set()
+        for x in own_walk(f.node):
+            tgt = val = None
+            if isinstance(x, ast.Assign) and len(x.targets) == 1 and isinstance(x.targets[0], ast.Name):
+                tgt, val = x.targets[0].id, x.value
+            elif isinstance(x, ast.AnnAssign) and isinstance(x.target, ast.Name) and x.value is not None:
+                tgt, val = x.target.id, x.value
+            if tgt and isinstance(val, ast.IfExp) and ast.unparse(val.test) in (f'{P} is None', f'{P} is not None'):
+                opt_side = val.body if ast.unparse(val.test) == f'{P} is None' else val.orelse
+                if 'options.bytealigned' in ast.unparse(opt_side):
+                    clean.add(tgt)
+            if isinstance(x, ast.If) and ast.unparse(x.test) == f'{P} is None':
+                for s in x.body:
+                    if isinstance(s, ast.Assign) and ast.unparse(s.targets[0]) == P and 'options.bytealigned' in ast.unparse(s.value):
+                        clean.add(f'{P}@' + str(x.lineno))
+        resolved_in_place = [int(c2.split('@')[1]) for c2 in clean if c2.startswith(f'{P}@')]
+        bad = None
+        for cs in fa.calls:
+            if not isinstance(cs.node, ast.Call):
+                continue
+            for a in list(cs.node.args) + [k.value for k in cs.node.keywords]:
+                if isinstance(a, ast.Name) and a.id == P and P not in clean:
+                    if any(a.lineno > ln for ln in resolved_in_place):
                         continue
-                    for a in list(cs.node.args) + [k.value for k in cs.node.keywords]:
-                        if isinstance(a, ast.Name) and a.id == 'bytealigned' and 'bytealigned' not in clean:
-                            if any(a.lineno > ln for ln in resolved_in_place):
-                                continue
-                            sink = cs.name in SEARCH_SINKS or (cs.recv is not None and 'BitStore' in (cs.recv_type or ()))
-                            forwards = cs.targets and all('bytealigned' in g.params() and not g.name.startswith(('_find', '_rfind')) for g, _ in cs.targets)
-                            if sink or not forwards:
-                                bad = (cs, a)
-                if not bad:
-                    # values derived from the parameter in any other way (e.g. `bytealigned or options.bytealigned`)
-                    for x in own_walk(f.node):
-                        tgt = val = None
-                        if isinstance(x, ast.Assign) and len(x.targets) == 1 and isinstance(x.targets[0], ast.Name):
-                            tgt, val = x.targets[0].id, x.value
-                        elif isinstance(x, ast.AnnAssign) and isinstance(x.target, ast.Name) and x.value is not None:
-                            tgt, val = x.target.id, x.value
-                        if tgt and tgt not in clean and any(isinstance(y, ast.Name) and y.id == 'bytealigned' for y in ast.walk(val)) \
-                                and not (isinstance(x, ast.Assign) and tgt == 'bytealigned' and any(x.lineno > ln for ln in resolved_in_place)):
-                            if isinstance(val, ast.Call) and isinstance(val.func, ast.Attribute) and val.func.attr in ('findall', 'find', 'rfind', '_replace', 'replace', 'split'):
-                                continue      # the parameter is forwarded to a sibling
-                            if isinstance(val, ast.Call) and ast.unparse(val.func) in ('functools.partial',) and 'bytealigned_' in ast.unparse(val):
-                                continue
-                            if isinstance(val, ast.Call):
-                                continue
-                            bad = (type('X', (), {'name': f'{tgt} = {norm(val)[:50]}'})(), val)
-                if bad and not hasattr(bad[0], 'targets'):
-                    r.fail(f.key, f'{name}: bytealigned default form', f"{c}.{name} derives the alignment flag as `{bad[0].name}`: only None may be "
-                           'replaced by options.bytealigned; any other form lets the option override an explicit False or lets None through',
-                           loc=f.loc(bad[1]))
-                elif bad:
-                    r.fail(f.key, f'{name}: raw bytealigned -> {bad[0].name}', f"{c}.{name} hands its bytealigned parameter (None by default) to "
-                           f"{bad[0].name} without resolving None through options.bytealigned: the module-wide option is ignored",
-                           loc=f.loc(bad[1]))
-                else:
-                    r.ok(f'{f.key}', {'instance': f.key, 'resolved_as': sorted(clean) or 'forwarded to a sibling'})
+                    sink = cs.name in SEARCH_SINKS or (cs.recv is not None and 'BitStore' in (cs.recv_type or ()))
+                    forwards = bool(cs.targets)
+                    for g, gc in (cs.targets or ()):
+                        pg = _receiving_param(g, cs.node, a)
+                        if pg is None or g.name.startswith(('_find', '_rfind')):
+                            forwards = False
+                        else:
+                            work.append((g, gc if gc is not None else c, pg, g.name))     # the callee must resolve None itself
+                    if sink or not forwards:
+                        bad = (cs, a)
+        if not bad:
+            # values derived from the parameter in any other way (e.g. `bytealigned or options.bytealigned`)
+            for x in own_walk(f.node):
+                tgt = val = None
+                if isinstance(x, ast.Assign) and len(x.targets) == 1 and isinstance(x.targets[0], ast.Name):
+                    tgt, val = x.targets[0].id, x.value
+                elif isinstance(x, ast.AnnAssign) and isinstance(x.target, ast.Name) and x.value is not None:
+                    tgt, val = x.target.id, x.value
+                if tgt and tgt not in clean and any(isinstance(y, ast.Name) and y.id == P for y in ast.walk(val)) \
+                        and not (isinstance(x, ast.Assign) and tgt == P and any(x.lineno > ln for ln in resolved_in_place)):
+                    if isinstance(val, ast.Call):
+                        continue      # the parameter is forwarded (checked above when the callee is ours)
+                    bad = (type('X', (), {'name': f'{tgt} = {norm(val)[:50]}'})(), val)
+        if bad and not hasattr(bad[0], 'targets'):
+            r.fail(f.key, f'{name}: bytealigned default form', f"{c}.{name} derives the alignment flag as `{bad[0].name}`: only None may be "
+                   'replaced by options.bytealigned; any other form lets the option override an explicit False or lets None through',
+                   loc=f.loc(bad[1]))
+        elif bad:
+            r.fail(f.key, f'{name}: raw bytealigned -> {bad[0].name}', f"{c}.{name} hands its bytealigned parameter (None by default) to "
+                   f"{bad[0].name} without resolving None through options.bytealigned: the module-wide option is ignored",
+                   loc=f.loc(bad[1]))
+        else:
+            r.ok(f'{f.key}', {'instance': f.key, 'resolved_as': sorted(clean) or 'forwarded to a sibling'})
     if n < 8:
         raise AnalysisError(f'only {n} functions with a bytealigned parameter found (floor 8)')
     return r
@@ -796,16 +819,34 @@ def rule_E11(ctx):
     m = ctx.m
     r = RuleResult('E11', "replace's count is applied after overlap filtering (never handed to findall, which counts overlapping matches)")
     n = 0
+    work = []
     for c in sorted(MUTABLE):
-        for f in m.winner(c, '_replace') + m.winner(c, 'replace'):
-            if 'count' not in f.params():
-                continue
+        for f in m.winner(c, 'replace'):
+            if 'count' in f.params():
+                work.append((f, c, 'count'))
+    seen = set()
+    while work:
+        f, c, P = work.pop(0)
+        if (f.key, c) in seen:
+            continue
+        seen.add((f.key, c))
+        if True:
             n += 1
             bad = None
+            fa = ctx.R.analyse(f, c)
+            for cs in fa.calls:
+                # the limit handed on to an internal routine (whatever its parameter is called there) is followed
+                if isinstance(cs.node, ast.Call) and cs.name and 'replace' in cs.name and cs.name != f.name:
+                    for a in list(cs.node.args) + [k.value for k in cs.node.keywords]:
+                        if any(isinstance(y, ast.Name) and y.id == P for y in ast.walk(a)):
+                            for g, gc in (cs.targets or ()):
+                                pg = _receiving_param(g, cs.node, a)
+                                if pg:
+                                    work.append((g, gc if gc is not None else c, pg))
             for x in own_walk(f.node):
                 if isinstance(x, ast.Call) and isinstance(x.func, ast.Attribute) and x.func.attr in ('findall', '_findall', 'findall_msb0'):
                     for a in list(x.args[3:4]) + [k.value for k in x.keywords if k.arg == 'count']:
-                        if any(isinstance(y, ast.Name) and y.id == 'count' for y in ast.walk(a)):
+                        if any(isinstance(y, ast.Name) and y.id == P for y in ast.walk(a)):
                             bad = x
             if bad is not None:
                 r.fail(f.key, bad, "findall's count limits ALL matches including overlapping ones, replace's count limits the non-overlapping "
